@@ -33,14 +33,18 @@ Definition check (c : case) : bool :=
       | None, None => true
       | Some m, Some o =>
           nlist_eqb m o &&
-          let sv := scaled_values maximize vals fails in
-          endpoint_spec_b sv (length points) k o &&
+          (* the values the view compares: scaled values, +inf for the failed observations *)
+          let mv := masked_values (scaled_values maximize vals fails) fails in
+          endpoint_spec_b mv (length points) k o &&
           match all_some (map (to_one_hot cs) points) with
           | None => false
           | Some ohs =>
-              match k_center (map (search_point cs tgt) ohs) (qargmin sv) k with
+              match k_center (map (search_point cs tgt) ohs) (vargmin mv) k with
               | None => false
-              | Some (_, part) => best_spec_b sv part k o
+              | Some (_, part) =>
+                  best_spec_b mv part k o &&
+                  (* with at least one success: the strict reading, stated on the RAW values, on the implementation's output *)
+                  (negb (existsb negb fails) || strict_spec_b maximize vals fails part k o)
               end
           end
       | _, _ => false
